@@ -143,6 +143,15 @@ def cases(tier, seed):
     # leave nothing behind - the next sift of the same record is judged and compared with the undisturbed run
     for i, name in enumerate(signals.fb_names((32,))):
         yield ('fb-abort', name, seed, i % len(ABORT_CFGS))
+    # a bounded iteration budget: the sift either raises the documented convergence error or returns a complete
+    # decomposition - never the components found so far
+    for i, name in enumerate(signals.fb_names((32,))):
+        for mi in (3, 10, 20):
+            yield ('fb-budget', name + (mi,), seed, i % 2)
+    # the same numbers in non-native byte order (what a big-endian file gives) and as 32-bit integers
+    for i, name in enumerate(signals.fb_names((32,))):
+        if i % 4 == 0:
+            yield ('fb-swapped', name, seed, (i * 41) % 288)
     # amplitudes many orders of magnitude from 1, the sift threshold rescaled with the signal (or switched off)
     for i, name in enumerate(signals.fb_names((32,))):
         if i % 3 == 0:
@@ -169,6 +178,11 @@ def signal_of(case):
         return signals.fa_signal(case[1], 3, case[2])
     if case[0] == 'fb-scaled':
         return signals.fb_signal(tuple(case[1][:-1]), case[2]) * case[1][-1]
+    if case[0] == 'fb-budget':
+        return signals.fb_signal(tuple(case[1][:-1]), case[2])
+    if case[0] == 'fb-swapped':
+        x_ = signals.fb_signal(case[1], case[2])
+        return np.round(x_ * 300) if case[2] % 2 else x_         # ADC-style counts for odd seeds
     return signals.fb_signal(case[1], case[2])
 
 
@@ -205,6 +219,8 @@ def check_case(case):
     configs = [SUBGRID[case[3] % 12] if input_final else GRID[case[3]]]
     if case[0] == 'fb-abort':
         configs = [ABORT_CFGS[case[3] % len(ABORT_CFGS)]]
+    if case[0] == 'fb-budget':
+        configs = [((('sd', 0.02), 1.0, 'splrep', 2), (('rilling', (0.05, 0.5, 0.05)), 1.0, 'splrep', 2))[case[3] % 2]]
     viols = []
     trans = 0
     classes = set()
@@ -218,12 +234,16 @@ def check_case(case):
         o = opts_of(rule, par, step, interp, pad)
         if case[0] == 'fb-scaled':
             o['sift_thresh'] = thresh
+        if case[0] == 'fb-budget':
+            o['imf_opts']['max_iters'] = case[1][-1]
         tag = '%s stop=%s%r step=%.3g interp=%s pad=%d%s' % (d, rule, par, step, interp, pad, '' if case[0] != 'fb-scaled' else ' sift_thresh=%g' % thresh)
         _state['paths'] = []
         _state['layer'] = 0
         _state['abort_at'] = None
         try:
             xin = x.copy() if case[0] != 'fa4-int' else x.astype(np.int64 if case[2] % 2 == 0 else np.int16)
+            if case[0] == 'fb-swapped':
+                xin = x.astype('>i4' if case[2] % 2 else '>f8')
             imf = sift(xin, **o)
             for m_ in _holder.swap(imf, 'sift ' + tag):
                 viols.append(('earlier-result-changed', m_))
